@@ -92,6 +92,7 @@ func (it *Interp) syncOf(p Value) *syncObj {
 
 func (it *Interp) resetPathEnv() {
 	it.syncObjs = nil
+	it.uuidSeq = 0
 	it.stubs = nil
 	it.envSym = map[string]Str{}
 	it.mapOrderAny = false
